@@ -12,6 +12,9 @@ Definition km (k : kind) : option markup :=
   end.
 Definition pushk (k : kind) (f : flat_text) : flat_text :=
   match km k with None => f | Some m => push_m m f end.
+(* ... as the constructor really applies it: Tag('emph', ...) is Tag('em', ...) *)
+Definition pushk_e (k : kind) (f : flat_text) : flat_text :=
+  match km k with None => f | Some m => push_m (erase_m m) f end.
 
 (* the markup an existing text object carries at its top level *)
 Definition top_markup (t : rt) : option markup :=
@@ -56,7 +59,7 @@ Fixpoint spec (e : expr) : option sval :=
   | ESym n => Some (None, [(ASym n, [])])
   | EText ps => option_map (sctor None) (mapO spec ps)
   | ETag n ps => option_map (sctor (Some (MTag (canon_name n)))) (mapO spec ps)
-  | EHRef u x ps => option_map (sctor (Some (MHRef u false))) (mapO spec ps)
+  | EHRef u x ps => option_map (sctor (Some (MHRef u x))) (mapO spec ps)
   | EProt ps => option_map (sctor (Some MProt)) (mapO spec ps)
   | EUpper a => option_map (fun r : sval => (fst r, map (conv_pair true) (snd r))) (spec a)
   | ELower a => option_map (fun r : sval => (fst r, map (conv_pair false) (snd r))) (spec a)
@@ -86,3 +89,73 @@ Fixpoint spec (e : expr) : option sval :=
 Definition top_e (t : rt) : option markup := option_map erase_m (top_markup t).
 Definition agrees (v : rt) (r : sval) : Prop := top_e v = fst r /\ erase (flat v) = snd r.
 
+
+(* ------------------------------------------------------------------------------ *)
+(* well-formed texts: no Tag carries the deprecated name "emph" (the constructor renames it to
+   "em", so every text the API can build is well-formed) *)
+Fixpoint wfb (t : rt) : bool :=
+  match t with
+  | RStr _ | RSym _ => true
+  | RText ps | RHRef _ _ ps | RProt ps => forallb wfb ps
+  | RTag n ps => str_eqb (canon_name n) n && forallb wfb ps
+  end.
+Definition wf (t : rt) : Prop := wfb t = true.
+
+(* the sequence of markup stacks of a rendering, position by position *)
+Definition stacks (f : flat_text) : list (list markup) := map snd f.
+
+(* ------------------------------------------------------------------------------ *)
+(* observers on the character sequence *)
+Definition atoms (f : flat_text) : list atom := map fst f.
+Definition occurs {X} (needle hay : list X) : Prop := exists a b, hay = a ++ needle ++ b.
+Definition prefix_of {X} (p l : list X) : Prop := exists b, l = p ++ b.
+Definition suffix_of {X} (p l : list X) : Prop := exists a, l = a ++ p.
+
+(* the String leaves of a text, and the first / last leaf a prefix / suffix test looks at *)
+Fixpoint leaves (t : rt) : list str :=
+  match t with
+  | RStr s => [s]
+  | RSym _ => []
+  | RText ps | RTag _ ps | RHRef _ _ ps | RProt ps => flat_map leaves ps
+  end.
+Fixpoint first_leaf (t : rt) : option str :=
+  match t with
+  | RStr s => Some s
+  | RSym _ => None
+  | RText ps | RTag _ ps | RHRef _ _ ps | RProt ps =>
+    match ps with [] => None | q :: _ => first_leaf q end
+  end.
+Fixpoint last_leaf (t : rt) : option str :=
+  match t with
+  | RStr s => Some s
+  | RSym _ => None
+  | RText ps | RTag _ ps | RHRef _ _ ps | RProt ps =>
+    (fix go (l : list rt) : option str :=
+       match l with [] => None | [q] => last_leaf q | _ :: r => go r end) ps
+  end.
+
+(* split(): the pairs that survive text.split() -- an unprotected whitespace character is a
+   separator and disappears, everything else (protected whitespace included) is kept *)
+Definition ws_sep (p : pair) : bool :=
+  negb (protected p) && match fst p with ACh c => is_space c | ASym _ => false end.
+Definition drop_ws (f : flat_text) : flat_text := filter (fun p => negb (ws_sep p)) f.
+
+(* ------------------------------------------------------------------------------ *)
+(* the normal form the constructor produces: parts are non-empty, never a Text, themselves
+   normal, and two neighbours never have the same type information (except Symbols) *)
+Definition not_text (t : rt) : bool := match t with RText _ => false | _ => true end.
+Definition adj_ok (p q : rt) : bool :=
+  negb (tinfo_eqb (typeinfo p) (typeinfo q)) || match typeinfo p with TINone => true | _ => false end.
+Fixpoint adjacent_ok (ps : list rt) : bool :=
+  match ps with
+  | p :: r => match r with q :: _ => adj_ok p q | [] => true end && adjacent_ok r
+  | [] => true
+  end.
+Fixpoint normal (t : rt) : bool :=
+  match t with
+  | RStr _ | RSym _ => true
+  | RText ps | RTag _ ps | RHRef _ _ ps | RProt ps =>
+    forallb (fun p => nonempty p && not_text p && normal p) ps && adjacent_ok ps
+  end.
+Definition normal_parts (ps : list rt) : bool :=
+  forallb (fun p => nonempty p && not_text p && normal p) ps && adjacent_ok ps.
